@@ -3,7 +3,8 @@ from vlib import g1check
 
 PROPERTY = "C01"
 LEVEL = "exploration"
-RULE = ("Also a leg over managers the harness cannot instrument: linear nests (1-4 with / async with statements, 1-3 items) of standard-library managers, seven kinds of them implemented in C (threading.Lock / RLock, StringIO, BytesIO, memoryview, decimal.localcontext, file objects), the others in Python (nullcontext, suppress, closing, ExitStack, Condition, Semaphore, redirect_stdout, AsyncExitStack, aclosing), observed at every suspension point in trickery mode against the statically known active set (identity, order, is_async, varname). "
+RULE = ("Also G2 await / yield-from / async-generator chains in which some frames hold managers open (coroutine, generator and async-generator frames reached through other frames: await, asend, __anext__, async for, yield from), every frame of the extracted stack listing exactly its own open managers (trickery mode). "
+        "Also a leg over managers the harness cannot instrument: linear nests (1-4 with / async with statements, 1-3 items) of standard-library managers, seven kinds of them implemented in C (threading.Lock / RLock, StringIO, BytesIO, memoryview, decimal.localcontext, file objects), the others in Python (nullcontext, suppress, closing, ExitStack, Condition, Semaphore, redirect_stdout, AsyncExitStack, aclosing), observed at every suspension point in trickery mode against the statically known active set (identity, order, is_async, varname). "
         "Programs: Hypothesis-generated with-programs (G1: generator / coroutine / async generator bodies over "
         "with / async with (1-4 items, 16 target forms, 3 layouts), try/except/else/finally, for, while, if, match, "
         "return/return-const/return-value/break/continue/raise, swallowing and raising managers, managers whose "
@@ -53,10 +54,15 @@ def run(ctx):
     staticleg.run(ctx, out, "static.exits", ["3.10", "3.11", "3.12"])
     from vlib import cmgrleg
     cmgrleg.run(ctx, out, "trick.")
+    from vlib import chainctxleg
+    chainctxleg.run(ctx, out, "trick.")
     return out
 
 
 def replay(ctx, data):
+    if "chain_contexts" in data.get("case", {}):
+        from vlib import chainctxleg
+        return chainctxleg.replay(ctx, data, "trick.")
     if "stdlib_managers" in data.get("case", {}):
         from vlib import cmgrleg
         return cmgrleg.replay(ctx, data, "trick.")
